@@ -3,7 +3,25 @@
 
   Rust (`curve.rs`, `calculate_length`): `path[end] = path[k] + dir * ((L − lengths[k]) as f32)` with
   `dir = (path[k+1] − path[k]).normalize()`, `normalize` = multiply by `length().recip()` in `f32`.
-  Model: `C16.cutPoint` (Props/C16.lean; `cut_shape` shows it is the last point of the adjusted path).
+  Model: `C16.cutPoint` (Props/C16.lean; `cut_shape` shows it is the last point of the adjusted path);
+  `cutPoint_eq_reproject` identifies it with `reproject p_k p_{k+1} t`, `t = (L − len_k) as f32`.
+
+  Per coordinate the code performs six roundings in `f32`: `b ⊖ a`, `1 ⊘ ell`, `⊗`, `⊗`, `⊕` (`reproject_chain` over ℚ,
+  `coord_err_float32`). `ell` (computed through an `f64` `sqrt`, which the error layer does not cover) is a PARAMETER: a
+  finite positive `f32`; every bound is relative to the `ell` the code actually used, i.e. to the point
+  `p_k + (τ/ℓ)(p_{k+1} − p_k)` of the exact line through the segment. `τ = toRat32 t` is the `f32` parameter the code used.
+
+  * (1) `cut_end_point_err_float32`: coordinates `≤ 2¹⁹`, `0 < ℓ ≤ 2²¹`, `0 ≤ τ ≤ ℓ(1+κ)`, `κ ≤ 2⁻²⁰` ⟹ both coordinates
+    within `cutBound = 11·2⁻²⁴·2¹⁹ + 2⁻²⁰ < 0.34376` px of `p_k + ρ(p_{k+1} − p_k)`, `ρ = τ/ℓ ∈ [0, 1+κ]`.
+  * (2) `ext_end_point_err_float32`: `0 ≤ τ ≤ 2⁴⁰` ⟹ within `2⁻⁵ + (5·2⁻²⁴ + 2⁻⁴⁴)·|ρ Δ| + 2⁻¹⁰⁰` per coordinate of the ray point.
+  * (3) `cut_end_point_near_segment` (`κ ≤ 2⁻²³`: within `1/2` px per coordinate of a point of the SEGMENT),
+    `ext_end_point_near_ray` (`≤ 11/16` px when the extension travels `≤ 2²¹` px per axis); kernel-evaluated demo:
+    the computed end point is off the exact line (errors `2⁻¹⁵/10`, `2⁻¹⁴/10`).
+  * range of the parameter: `param_range_q`, `cut_param_range_float_partial` (`τ ≤ ℓ(1 + 2⁻²³)` from
+    `L ≤ len_k ⊕ f64::from(ell)`), PARTIAL: the two conversion facts (`Cvt.up` exact on values, `Cvt.down` one correct
+    rounding) are hypotheses — `upBits`/`downBits` are bit-level definitions outside `Float.Model` and are not connected
+    to `toRat`/`toRat32` yet. `τ ≥ 0` is a hypothesis of (1)/(2) for the same reason.
+  The only finiteness hypotheses are on the *result* coordinates and on `ell`; finiteness of all intermediates follows.
 -/
 import RosuModel.Props.C16
 import RosuModel.Lemmas.FloatErr32
@@ -471,6 +489,23 @@ example :
   have a4 : toRat32 demoPE.y = 224 := demo_224
   rw [e1, e2, a1, a2, a3, a4] at h
   exact ⟨h.2.1, h.2.2⟩
+
+/-- the hypotheses of `ext_end_point_err_float32` (and of `ext_end_point_near_ray`) are satisfiable: same demo. -/
+example : ∃ ρ : ℚ, 0 ≤ ρ ∧
+    |toRat32 (reproject demoPP demoPE demoT).x - (toRat32 demoPP.x + ρ * (toRat32 demoPE.x - toRat32 demoPP.x))| ≤ 11 / 16 ∧
+    |toRat32 (reproject demoPP demoPE demoT).y - (toRat32 demoPP.y + ρ * (toRat32 demoPE.y - toRat32 demoPP.y))| ≤ 11 / 16 := by
+  obtain ⟨bx, bY, bl, bt⟩ := demo_bits
+  have e1 : toRat32 demoT = 10 := by rw [bt, demo_10]
+  have e2 : toRat32 (Pos.length Float (demoPE - demoPP)) = 25 := by rw [bl, demo_25]
+  have a1 : toRat32 demoPP.x = 100 := demo_100
+  have a2 : toRat32 demoPP.y = 200 := demo_200
+  have a3 : toRat32 demoPE.x = 107 := demo_107
+  have a4 : toRat32 demoPE.y = 224 := demo_224
+  exact ext_end_point_near_ray demoPP demoPE demoT
+    (by rw [bx]; decide +kernel) (by rw [bY]; decide +kernel) (by rw [bl]; decide +kernel)
+    ⟨by rw [a1]; norm_num, by rw [a2]; norm_num⟩
+    (by rw [e2]; norm_num) (by rw [e2]; norm_num) (by rw [e1]; norm_num) (by rw [e1]; norm_num)
+    (by rw [e1, e2, a1, a3]; norm_num) (by rw [e1, e2, a2, a4]; norm_num)
 
 /-- **the bound is not vacuous and the end point is NOT on the segment**: the computed point is
 `(102.8 + 2⁻¹⁷·0.4, 209.6 + 2⁻¹⁶·0.4)`: its errors `≈ 3.05·10⁻⁶` and `≈ 6.10·10⁻⁶` are non-zero (far below the bound
